@@ -106,7 +106,11 @@ PathOf(t) ==
     [] t \in {"error", "error-ret"} -> <<"recv", "error", "deliver", "log">>
     [] t = "restart"               -> <<"recv", "recv", "hash", "miss", "fetch", "deliver", "log">>
 
-SubOf(name, body) == Sub("vcl_" \o name, <<>>, "", <<Log("@" \o name)>> \o body)
+\* every lifecycle subroutine starts with its #FASTLY macro: the harness configures a scoped snippet `log "snip-<scope>";`
+\* for recv and deliver, so macro expansion is part of what the request does
+Macro(name) == [a |-> [k |-> "annot", p_blank |-> FALSE], t |-> W("#FASTLY " \o name) \o NL]
+SubOf(name, body) == Sub("vcl_" \o name, <<>>, "", <<Macro(name), Log("@" \o name)>> \o body)
+SnipLog(name) == IF name \in {"recv", "deliver"} THEN <<"snip-" \o name>> ELSE <<>>
 Others == <<"hash", "miss", "pass", "fetch", "error", "deliver", "log", "hit">>
 Exec(seg, t) ==
   [name |-> seg.name \o "/" \o t,
@@ -225,7 +229,11 @@ ProgT(p) == CatT(p.ds)
 NDecorated(p) == p.nd
 Decors(p) ==
   LET n == Cardinality(GapIdx(CatT(SubSeq(p.ds, 1, NDecorated(p)))))
+      gs == GapSeq(ProgT(p))
+      \* a comment; or - at positions on a line of their own - an empty line, or an empty line followed by a comment
       one(i) == {[at |-> i, m |-> m, sp |-> "plain"] : m \in Markers}
+                \cup (IF gs[i].c \in {"lead", "inner"}
+                      THEN {[at |-> i, m |-> "#", sp |-> "blankonly"], [at |-> i, m |-> "//", sp |-> "blankbefore"]} ELSE {})
   IN {<<c>> : c \in UNION {one(i) : i \in 1..n}}
      \cup (IF MaxDecor >= 2
            THEN UNION {{<<c1, c2>> : c1 \in one(ij[1]), c2 \in one(ij[2])} : ij \in {q \in (1..n) \X (1..n) : q[1] < q[2] /\ q[2] <= q[1] + 2}}
@@ -239,6 +247,11 @@ Spec == Init /\ [][Decorate]_dvars
 \* REQUIREMENT on the model: the semantics is a function of the abstract syntax, which Decorate does not touch
 Inert == [][prog' = prog]_dvars
 
+\* Sem with the scoped snippets of the harness: the macro at the head of vcl_recv / vcl_deliver logs first
+RECURSIVE WithSnips(_)
+WithSnips(ls) == IF ls = <<>> THEN <<>>
+                 ELSE (IF ls[1] = "@recv" THEN <<"snip-recv">> ELSE IF ls[1] = "@deliver" THEN <<"snip-deliver">> ELSE <<>>)
+                      \o <<ls[1]>> \o WithSnips(Tail(ls))
 Enc(p) == CASE p.t = "w" -> p.s
             [] p.t = "g" -> "@" \o p.n \o ":" \o p.l \o ":" \o p.c \o ":" \o (IF p.d THEN "1" ELSE "0")
             [] p.t = "nl" -> "\n"
@@ -247,5 +260,5 @@ Enc(p) == CASE p.t = "w" -> p.s
 Emit == lay = -1 =>
   PrintT(<<"BEHAVIOUR", ToJson([name |-> prog.name, exec |-> prog.exec, toks |-> [i \in DOMAIN ProgT(prog) |-> Enc(ProgT(prog)[i])],
                                  \* seeded line breaks would move an end-of-line annotation to another line
-                                 decors |-> Decors(prog), lays |-> IF prog.annot THEN {0} ELSE Layouts, logs |-> prog.logs, path |-> prog.path])>>)
+                                 decors |-> Decors(prog), lays |-> IF prog.annot THEN Layouts \cap {0, 2} ELSE Layouts, logs |-> WithSnips(prog.logs), path |-> prog.path])>>)
 =============================================================================
